@@ -263,7 +263,16 @@ def r4(ctx):
     ctx.floor(R, 1)
 
 
+def r5(ctx):
+    R = "C05-R5"
+    ctx.rule(R, "sibling agreement: Sim::client and Sim::host register a node through the same steps (lookup, World::register with a HostTimer, "
+                "one seed draw, rt::Config) - expected difference: Rt::client vs Rt::host")
+    sibling_rule(ctx, R, "turmoil::sim::Sim::client", "turmoil::sim::Sim::host", ["turmoil::rt::Rt::client", "turmoil::rt::Rt::host"])
+    ctx.floor(R, 1)
+
+
 def run(ctx):
+    r5(ctx)
     r1(ctx)
     r2(ctx)
     r3(ctx)
